@@ -38,6 +38,9 @@ def jobs_for(tier):
     add(params=[(2, 2), (2, 2)], mpd=2, merge=False, graft="adagrad", nesterov=False, bias_corr=True, decoupled=False, pf=1, sps=2, T=3, rebase=True, precond="soap_eigh")
     # two groups: a whole group may be absent
     add(params=[(2, 2), (2, 2), (2,)], groups=[[0], [1, 2]], mpd=2, merge=False, graft="adam", nesterov=False, bias_corr=True, decoupled=True, pf=1, sps=2, T=2)
+    # ... with their own hyperparameters: a group stepped with another group's settings (after an all-absent group) must show
+    add(params=[(2, 2), (2, 2)], groups=[[0], [1]], group_overrides=[{}, dict(lr="lr_g1", betas=["b1_g1", "b2_g1"], weight_decay="wd_g1", momentum="mom_g1")], mpd=2, merge=False,
+        graft="sgd", nesterov=False, bias_corr=True, decoupled=True, pf=1, sps=2, T=2)
     if tier == "thorough":
         add(params=[(2, 2), (2, 2), (2, 2)], mpd=2, merge=False, graft="adam", nesterov=True, bias_corr=True, decoupled=False, pf=2, sps=2, T=4, rebase=True)
         add(params=[(4, 2), (2, 2)], mpd=2, merge=False, graft="rmsprop", nesterov=True, bias_corr=True, decoupled=True, pf=1, sps=2, T=4, rebase=True)
